@@ -57,3 +57,20 @@ func NewCancelledCtx() context.Context {
 	cancel()
 	return c
 }
+
+// context.WithValue without reflection.
+type MValueCtx struct {
+	context.Context
+	key, val any
+}
+
+func (c *MValueCtx) Value(key any) any {
+	if c.key == key {
+		return c.val
+	}
+	return c.Context.Value(key)
+}
+
+func Context_WithValue(parent context.Context, key, val any) context.Context {
+	return &MValueCtx{parent, key, val}
+}
